@@ -351,7 +351,7 @@ static void del_container(seq *s)
     }
 }
 
-static uint64_t vf_ncases(int tier) { return tier ? 400000 : 6000; }
+static uint64_t vf_ncases(int tier) { return tier ? 1200000 : 6000; }
 
 static void vf_case(uint64_t c, vf_rng *r)
 {
